@@ -115,8 +115,8 @@ def build(case):
     if case.get('ns'):
         o['ns'] = case['ns']
         o['n_samples'] = 4 * case['ns']
-    spec = random_spec(rng, **{k: v for k, v in o.items() if k not in (
-        'nan', 'attrs', 'alf_store_samples', 'dat_path_str', 'alf_skew', 'fortran')})
+    spec = random_spec(rng, ties=case['seed'][2] % 4 == 2, **{k: v for k, v in o.items() if k not in (
+        'nan', 'attrs', 'alf_store_samples', 'dat_path_str', 'alf_skew', 'fortran')})       # (ties: a regular grid, x and y values repeat)
     spec.notes['fortran'] = bool(o['fortran'])
     spec.notes['raw_symlink'] = bool(o['raw_symlink'])
     spec.notes['raw_same_name'] = case['seed'][2] % 3 == 1         # parts named run<k>/continuous.<ext>
@@ -153,7 +153,11 @@ def build(case):
         # NaN on every channel of the first waveform sample only: not an empty template, the values stay as stored
         spec.templates[int(rng.integers(0, spec.n_templates)), 0, :] = np.nan
     elif nan == 'template':
-        spec.templates[int(rng.integers(0, spec.n_templates))] = np.nan
+        t_nan = int(rng.integers(0, spec.n_templates))
+        unused = sorted(set(range(spec.n_templates)) - set(spec.spike_templates.tolist()))
+        if unused and case['seed'][2] % 2:
+            t_nan = unused[0]            # the all-NaN template is one that no spike refers to (a template the sorter dropped)
+        spec.templates[t_nan] = np.nan
         spec.notes['nan_template'] = True
     if case.get('reject'):
         s = spec.spike_samples.copy()
@@ -355,8 +359,9 @@ def _compare(m, spec, o, case, ctx, feats):
     C('channel_probes', m.channel_probes,
       spec.probes if spec.probes is not None else np.zeros(spec.n_channels, np.int32), dtype=False)
     # templates
-    if not spec.notes.get('nan_template'):
-        C('sparse_templates.data', np.asarray(m.sparse_templates.data), spec.templates)
+    expT = np.array(spec.templates, copy=True)
+    expT[np.isnan(expT).all(axis=(1, 2))] = 0          # a template that is NaN everywhere is an empty template: zeros, used by spikes or not
+    C('sparse_templates.data', np.asarray(m.sparse_templates.data), expT)
     if spec.template_ind is None:
         if m.sparse_templates.cols is not None:
             ctx.violation('attribute_mismatch', case, 'dense templates got cols', dict(feats, attr='cols'))
